@@ -543,6 +543,8 @@ def run(ctx):
     tasks, cov = plan(ctx.tier)
     ctx.pmap(MOD, "selfcheck_task", [dict()])
     ctx.pmap(MOD, "any_task", [dict(fn=fn, arg=arg) for fn, arg in tasks])
+    for hs in (("4", "7") if ctx.quick else ("1", "2", "4", "7", "123", "4242")):  # the 2x2 and 1x3 spaces again in interpreters with other hash seeds
+        ctx.pmap(MOD, "any_task", [dict(fn="graph_task", arg=dict(shape=[r, c], bits=list(range(R.n_graphs(r, c))), simple=True)) for (r, c) in ((2, 2), (1, 3))], hashseed=hs)
     groups = MIXED_GROUPS_QUICK if ctx.quick else MIXED_GROUPS_THOROUGH
     ctx.pmap(MOD, "mixed_task", [dict(group=g, order=o) for g in groups for o in ("interleaved", "shape_major", "reversed")], fresh=True)
     ctx.coverage.update(
